@@ -1,25 +1,18 @@
-use nqverif::{corpus::*, rparse, schema::Sch, valid_op, valid_ts, gql::*};
+use nqverif::{pipeline, c03, gen_sem};
 fn main() {
     let a: Vec<String> = std::env::args().collect();
-    if a.len() > 1 && a[1] == "corpus" {
-        let mut ts = rparse::parse_ts(SCHEMA_MAIN).unwrap();
-        ts.defs.extend(rparse::parse_ts(SCHEMA_EXT).unwrap().defs);
-        println!("schema findings: {:?}", valid_ts::validate(&ts));
-        let sch = Sch::from_doc(&ts).unwrap();
-        let mut op = rparse::parse_exec(OP_MAIN).unwrap();
-        op.defs.retain(|d| !matches!(d, ExecDef::Import{..}));
-        op.defs.extend(rparse::parse_exec(OP_FRAGS).unwrap().defs);
-        println!("op findings: {:?}", valid_op::validate(&sch, &op));
-        let op2 = rparse::parse_exec("query Q($a: Int, $a: Int, $u: User) { me { nope id { x } friends } ...F ...G @nope @skip users(filter: {zz: 1, kind: XX}, first: \"s\") { id } } fragment G on Kind { a } fragment H on Post { ...H } ").unwrap();
-        for f in valid_op::validate(&sch, &op2) { println!("  {:?}", f); }
-        return;
+    let s = c03::subject_schema();
+    let mut cfg = pipeline::default_config();
+    cfg.generate.r#type.scalar_types.insert("Date".into(), nitrogql_config_file::ScalarTypeConfig::Single("string".into()));
+    if a[1] == "schema" { println!("{}", pipeline::schema_dts(&s.doc, &cfg).unwrap().buffer); }
+    if a[1] == "resolvers" { println!("{}", pipeline::resolvers_dts(&s.doc, &cfg, "./schema.js").unwrap().buffer); }
+    if a[1] == "op" {
+        let text = std::fs::read_to_string(&a[2]).unwrap();
+        let ops = vec![(std::path::PathBuf::from("/p/a.graphql"), text)];
+        let loaded = pipeline::load_operations(&ops, 1).map_err(|f| format!("{:?}", f.diags)).unwrap();
+        let mut cfg = cfg;
+        if a.len() > 3 { cfg.generate.mode = nitrogql_config_file::GenerateMode::StandaloneTS4_0; }
+        for (_, d, _, _) in &loaded { println!("{}", pipeline::operation_dts(&s.schema, d, &cfg, "./schema.js").buffer); println!("---JS---\n{}", pipeline::operation_js(d, &cfg)); }
     }
-    let t = std::fs::read_to_string(&a[2]).unwrap();
-    if a[1] == "ts" {
-        match nitrogql_parser::parse_type_system_document(&t) { Ok(_) => println!("ok"), Err(e) => { let pe: nitrogql_error::PositionedError = e.into(); println!("{:?}", pe) } }
-        println!("ref: {:?}", nqverif::rparse::parse_ts(&t).map(|d| d.defs.len()));
-    } else {
-        match nitrogql_parser::parse_operation_document(&t) { Ok(_) => println!("ok"), Err(e) => { let pe: nitrogql_error::PositionedError = e.into(); println!("{:?}", pe) } }
-        println!("ref: {:?}", nqverif::rparse::parse_exec(&t).map(|d| d.defs.len()));
-    }
+    let _ = gen_sem::SEM_SCHEMA;
 }
